@@ -208,7 +208,9 @@ def _is_zero(t):
 
 
 def _lz(t):
-    """(x, type) if t is leading_zeros(x)."""
+    """x if t is leading_zeros(x) (possibly widened by casts)."""
+    while isinstance(t, tuple) and t and t[0] == 'cast':
+        t = t[2]
     if isinstance(t, tuple) and t and t[0] == 'call' and isinstance(t[1], str) and t[1].endswith('leading_zeros'):
         return t[2][0] if t[2] else None
     return None
